@@ -9,7 +9,7 @@
 #define M_MOD_ASSERT(mod) \
     M_PARAM_ASSERT(mod); \
     M_RET_ASSERT(!m_mod_is(mod, M_MOD_ZOMBIE), -EACCES); \
-    M_RET_ASSERT(mod->ctx == m_ctx(), -EPERM)
+    M_RET_ASSERT(mod->ctx == m_thread_ctx(), -EPERM)
 
 #define M_MOD_ASSERT_PERM(mod, perm) \
     M_MOD_ASSERT(mod); \
